@@ -40,6 +40,19 @@ func (r ProcResult) String() string {
 	return fmt.Sprintf("code=%d signal=%d timedout=%v stderr=%q", r.Code, r.Signal, r.TimedOut, truncate(r.Stderr, 300))
 }
 
+// KilledFromOutside: the child ended by a signal that neither csvq raises against itself nor this run's watchdog sent
+// (SIGKILL without a timeout — the OOM killer, a foreign kill — or SIGINT / SIGQUIT / SIGTERM where the case injected none).
+// Such a run says nothing about csvq: callers report it as inconclusive.
+func (r ProcResult) KilledFromOutside() bool {
+	switch r.Signal {
+	case 9:
+		return !r.TimedOut
+	case 2, 3, 15:
+		return true
+	}
+	return false
+}
+
 type ProcOpts struct {
 	Bin     string
 	Dir     string
